@@ -63,7 +63,7 @@ theorem safe_join_segments (base name p : Str) (h : safeJoin base name = some p)
   simp only [nameSegs, List.mem_filter, bne_iff_ne, ne_eq] at hs
   obtain ⟨hm, hne⟩ := hs
   have hg := h1 s hm
-  obtain ⟨g1, g2⟩ := (badSeg_false_iff s).1 hg
+  obtain ⟨g1, g2⟩ := badSeg_false_imp s hg
   exact ⟨hne, not_dot_of_good hg, not_dotdot_of_good hg, g1, hsep s hm, g2⟩
 
 example : safeJoin "/srv/t".toList "a//b.txt".toList = some "/srv/t/a/b.txt".toList := by decide
@@ -75,10 +75,10 @@ theorem escape_rejected (base name s : Str) (hs : s ∈ splitOn '/' name)
     (hbad : s = ['.'] ∨ s = dotdot ∨ s.head? = some '.' ∨ '\\' ∈ s) : safeJoin base name = none := by
   apply safeJoinLoop_none_of_bad base _ s hs
   rcases hbad with h | h | h | h
-  · subst h; decide
-  · subst h; decide
-  · simp [badSeg, h]
-  · simp [badSeg, h]
+  · subst h; exact badSeg_of_head rfl
+  · subst h; exact badSeg_of_head rfl
+  · exact badSeg_of_head h
+  · exact badSeg_of_mem h
 
 example : safeJoin "/srv/t".toList "a/../../etc/passwd".toList = none := by decide
 example : safeJoin "/srv/t".toList "a/..".toList = none := by decide
@@ -141,6 +141,148 @@ example : Confined "/srv/t".toList "a//b.txt".toList "/srv/t/a/b.txt".toList :=
   (safe_join_confined _ _).2 _ (by decide)
 example : safeJoin "../t/".toList "x/..".toList = none :=
   (safe_join_confined _ _).1 dotdot (by decide) (by simp)
+
+/-! ### the loader over time: the base used at load time is the configured base -/
+
+/-- `path_loader(dir)` keeps the configured spelling whatever the file system looks like when it
+    is called (directory missing, created later, working directory elsewhere): the state of the
+    disk at construction has no influence on the loader -/
+theorem loader_base_is_configured (fs0 : Snapshot) (dir : Str) :
+    (pathLoader fs0 dir).base = dir ∧ ∀ fs1 : Snapshot, pathLoader fs1 dir = pathLoader fs0 dir :=
+  ⟨rfl, fun _ => rfl⟩
+
+/-- a disk on which nothing can be read (say: the base does not exist yet) -/
+def emptyDisk : Snapshot := fun _ => .notFound
+/-- a disk with exactly one readable file -/
+def oneFile (path content : Str) : Snapshot := fun p => if p = path then .content content else .notFound
+
+example : pathLoader emptyDisk "site/t".toList = pathLoader (oneFile "x".toList []) "site/t".toList := rfl
+
+/-- every path a request hands to the file system is confined to the configured base -/
+theorem loader_reads_confined (fs0 : Snapshot) (dir name p : Str)
+    (h : p ∈ (pathLoader fs0 dir).reads name) : Confined dir name p := by
+  unfold Loader.reads pathLoader at h
+  cases hj : safeJoin dir name with
+  | none => simp [hj] at h
+  | some q =>
+    simp only [hj, List.mem_singleton] at h
+    subst h
+    exact (safe_join_confined dir name).2 _ hj
+
+example : (pathLoader emptyDisk "/srv/t".toList).reads "a/b".toList = ["/srv/t/a/b".toList] := by decide
+example : (pathLoader emptyDisk "/srv/t".toList).reads "../b".toList = [] := by decide
+
+/-- whatever the file system is at load time and was at construction time: returned content is
+    what the load-time file system holds at a path confined to the configured base -/
+theorem loader_found_confined (fs0 fs : Snapshot) (dir name s : Str)
+    (h : (pathLoader fs0 dir).load fs name = .found s) :
+    ∃ p, safeJoin dir name = some p ∧ fs p = .content s ∧ Confined dir name p := by
+  obtain ⟨p, hp, hf⟩ := load_found h
+  exact ⟨p, hp, hf, (safe_join_confined dir name).2 p hp⟩
+
+example : (pathLoader emptyDisk "b".toList).load (oneFile "b/x".toList "hi".toList) "x".toList
+    = .found "hi".toList := by decide
+example : (pathLoader emptyDisk "b".toList).load (oneFile "x".toList "canary".toList) "x".toList
+    = .missing := by decide   -- a working-directory relative namesake is not served
+
+/-- while nothing readable has the base as literal prefix (the base does not exist, or is empty),
+    the only answers are "missing" and "unreadable" -/
+theorem loader_absent_base_missing (fs0 fs : Snapshot) (dir name : Str)
+    (habs : ∀ p s, dir <+: p → fs p ≠ .content s) (s : Str) :
+    (pathLoader fs0 dir).load fs name ≠ .found s := by
+  intro h
+  obtain ⟨p, hp, hf, hc⟩ := loader_found_confined fs0 fs dir name s h
+  exact habs p s hc.2.1 hf
+
+example : ∀ p s, "b".toList <+: p → oneFile "x".toList "canary".toList p ≠ .content s := by
+  intro p s hp h
+  simp only [oneFile] at h
+  split at h
+  · rename_i e; subst e; revert hp; decide
+  · cases h
+
+/-- the environment's template store in front of the loader, over an arbitrary history of file
+    systems (directories created, removed, recreated, the working directory changed between
+    construction and loads): every source ever answered for a name, and everything the store
+    holds afterwards (`Environment::templates`), is what some snapshot of the history held at the
+    path `safe_join(configured base, name)`, which is confined to the configured base -/
+theorem loader_history_confined (fs0 : Snapshot) (dir : Str) (h : List (Snapshot × Str)) :
+    (∀ n s, (n, LoadResult.found s) ∈ (Env.mk (pathLoader fs0 dir) []).run h →
+      ∃ x ∈ h, x.2 = n ∧ ∃ p, safeJoin dir n = some p ∧ x.1 p = .content s ∧ Confined dir n p) ∧
+    (∀ n s, (n, s) ∈ ((Env.mk (pathLoader fs0 dir) []).after h).templates →
+      ∃ x ∈ h, x.2 = n ∧ ∃ p, safeJoin dir n = some p ∧ x.1 p = .content s ∧ Confined dir n p) := by
+  obtain ⟨h1, h2, _⟩ := run_justified dir h (Env.mk (pathLoader fs0 dir) []) [] rfl
+    (fun n s hm => by simp at hm)
+  simp only [List.nil_append] at h1 h2
+  constructor
+  · intro n s hm
+    obtain ⟨x, hx, e, p, hp, hf⟩ := h1 n s hm
+    exact ⟨x, hx, e, p, hp, hf, (safe_join_confined dir n).2 p hp⟩
+  · intro n s hm
+    obtain ⟨x, hx, e, p, hp, hf⟩ := h2 n s hm
+    exact ⟨x, hx, e, p, hp, hf, (safe_join_confined dir n).2 p hp⟩
+
+/-- `clear_templates` forgets what was stored but not where the loader looks: after any history
+    and a clear, every further answer comes from the snapshots AFTER the clear, at a path confined
+    to the configured base -/
+theorem loader_history_confined_after_clear (fs0 : Snapshot) (dir : Str) (h1 h2 : List (Snapshot × Str)) :
+    ∀ n s, (n, LoadResult.found s) ∈ (((Env.mk (pathLoader fs0 dir) []).after h1).clear).run h2 →
+      ∃ x ∈ h2, x.2 = n ∧ ∃ p, safeJoin dir n = some p ∧ x.1 p = .content s ∧ Confined dir n p := by
+  obtain ⟨_, _, hb⟩ := run_justified dir h1 (Env.mk (pathLoader fs0 dir) []) [] rfl
+    (fun n s hm => by simp at hm)
+  obtain ⟨g1, _, _⟩ := run_justified dir h2 (((Env.mk (pathLoader fs0 dir) []).after h1).clear) []
+    (by simpa [Env.clear] using hb) (fun n s hm => by simp [Env.clear] at hm)
+  intro n s hm
+  obtain ⟨x, hx, e, p, hp, hf⟩ := g1 n s hm
+  exact ⟨x, by simpa using hx, e, p, hp, hf, (safe_join_confined dir n).2 p hp⟩
+
+example : (((Env.mk (pathLoader emptyDisk "b".toList) []).after
+      [(oneFile "b/x".toList "inside".toList, "x".toList)]).clear).run [(emptyDisk, "x".toList)]
+    = [("x".toList, .missing)] := by decide
+
+/-- base missing at construction and at the first request, created before the second, removed
+    before the third (answered from the store) -/
+example : (Env.mk (pathLoader emptyDisk "b".toList) []).run
+      [(oneFile "x".toList "canary".toList, "x".toList),
+       (oneFile "b/x".toList "inside".toList, "x".toList),
+       (emptyDisk, "x".toList)]
+    = [("x".toList, .missing), ("x".toList, .found "inside".toList), ("x".toList, .found "inside".toList)] := by
+  decide
+
+/-! ### ties to the source (tables regenerated by `lib/tables/c17.py`) -/
+
+/-- spellings of "an owned copy of the path that was passed in" -/
+def verbatimCopies : List String :=
+  ["dir.as_ref().to_path_buf()", "dir.as_ref().to_owned()", "PathBuf::from(dir.as_ref())",
+   "dir.as_ref().into()"]
+
+/-- `path_loader` in the source captures the directory it is given verbatim, joins with
+    `safe_join(&dir, name)` and touches the file system through one `fs::read_to_string` only —
+    the shape `pathLoader`/`Loader.load` model -/
+theorem loader_model_matches_source :
+    MJ.Gen.c17PathLoaderBase ∈ verbatimCopies ∧
+    MJ.Gen.c17PathLoaderFsCalls = ["read_to_string"] ∧
+    MJ.Gen.c17PathLoaderJoins = ["&dir,name"] := by decide
+
+/-- the rules the model's `badSeg`/`safeJoin` are built from, as found in the source now -/
+theorem safe_join_rules_from_source :
+    MJ.Gen.c17SafeJoinSep = '/' ∧ '.' ∈ MJ.Gen.c17RejectPrefix ∧ '\\' ∈ MJ.Gen.c17RejectContains :=
+  ⟨sep_eq, rules_cover.1, rules_cover.2⟩
+
+/-- the functions of the engine that fetch a template by name, and the harness form driving each -/
+def drivenSites : List (String × String × String) :=
+  [("environment.rs", "templates", "templates.iter"),        -- form `templates`
+   ("environment.rs", "get_template", "templates.get"),      -- form `get`
+   ("vm/mod.rs", "perform_include", "get_template"),         -- forms include, import, from, inclist, macro, nested
+   ("vm/mod.rs", "load_blocks", "join_template_path"),       -- forms extends, joincb
+   ("vm/mod.rs", "load_blocks", "get_template"),             -- form extends
+   ("vm/state.rs", "get_template", "get_template"),          -- form fn (State::get_template from a function)
+   ("vm/state.rs", "get_template", "join_template_path")]    -- form joincb
+
+/-- every place in the engine's source that fetches a template by name is driven by the harness -/
+theorem entry_sites_covered : ∀ s ∈ MJ.Gen.c17LoaderEntrySites, s ∈ drivenSites := by decide
+
+example : MJ.Gen.c17LoaderEntrySites ≠ [] := by decide
 
 /-- names computed inside a template (`include`, `import`, `from`, `extends`) reach the loader
     unchanged when no join callback is installed -/
